@@ -144,6 +144,13 @@ class World(object):
             log.append(("badser", [], {}))
             return BadSer()
 
+        def retfault():
+            # an application error reported by *returning* a Fault built without configuration
+            from jsonrpclib import Fault
+            log.append(("retfault", [], {}))
+            return Fault(-32001, "app-fault", data={"d": 1})
+
+        reg("retfault", retfault)
         reg("f", f)
         reg("pair", pair)
         reg("opt", opt)
@@ -286,6 +293,8 @@ def expect_entry(world, e):
         return (answer(Exp(rid, "error", [-32603], form=form, contains=[type(ex).__name__, str(ex)], why="method raised %s" % type(ex).__name__)),
                 probe, notif, False)
     val = outcome[1]
+    if type(val).__name__ == "Fault" and hasattr(val, "faultCode"):
+        return (answer(Exp(rid, "error", [val.faultCode], form=form, contains=[val.faultString], why="method returned a Fault")), probe, notif, False)
     if isinstance(val, BadSer):
         return (answer(Exp(rid, "error", [-32603], form=form, contains=["RuntimeError", "cannot serialise"], why="result conversion failed")),
                 probe, notif, False)
